@@ -74,12 +74,13 @@ func NewFakeDynamo(region string, tables ...string) *FakeDynamo {
 type DynError struct {
 	Code string
 	Msg  string
+	Item map[string]*AV // the existing item of a failed conditional write (returned to callers that ask for ALL_OLD)
 }
 
 func (e *DynError) Error() string { return e.Code + ": " + e.Msg }
 
 func validation(format string, a ...interface{}) *DynError {
-	return &DynError{"ValidationException", fmt.Sprintf(format, a...)}
+	return &DynError{Code: "ValidationException", Msg: fmt.Sprintf(format, a...)}
 }
 
 func (f *FakeDynamo) table(name *string) (*DynTable, *DynError) {
@@ -88,7 +89,7 @@ func (f *FakeDynamo) table(name *string) (*DynTable, *DynError) {
 	}
 	t := f.Tables[*name]
 	if t == nil {
-		return nil, &DynError{"ResourceNotFoundException", "Requested resource not found: table " + *name}
+		return nil, &DynError{Code: "ResourceNotFoundException", Msg: "Requested resource not found: table " + *name}
 	}
 	return t, nil
 }
@@ -154,7 +155,7 @@ func (f *FakeDynamo) transient(op string) *DynError {
 	}
 	if f.failed[op] < f.FailReads {
 		f.failed[op]++
-		return &DynError{"InternalServerError", "internal server error (injected)"}
+		return &DynError{Code: "InternalServerError", Msg: "internal server error (injected)"}
 	}
 	f.failed[op] = 0
 	return nil
@@ -222,7 +223,7 @@ func (f *FakeDynamo) PutItem(table *string, item map[string]*AV, cond *string, n
 			}
 			if idx >= 0 {
 				if _, has := t.Items[idx][attr]; has {
-					return &DynError{"ConditionalCheckFailedException", "The conditional request failed"}
+					return &DynError{Code: "ConditionalCheckFailedException", Msg: "The conditional request failed", Item: t.Items[idx]}
 				}
 			}
 		}
@@ -569,7 +570,11 @@ func (d DynamoV2) GetItem(_ context.Context, in *ddbv2.GetItemInput, _ ...func(*
 func (d DynamoV2) PutItem(_ context.Context, in *ddbv2.PutItemInput, _ ...func(*ddbv2.Options)) (*ddbv2.PutItemOutput, error) {
 	defer d.F.enter("dynamo.Put")()
 	if e := d.F.PutItem(in.TableName, mapFromV2(in.Item), in.ConditionExpression, in.ExpressionAttributeNames); e != nil {
-		return nil, errV2(e)
+		err := errV2(e)
+		if cc, ok := err.(*typesv2.ConditionalCheckFailedException); ok && e.Item != nil && in.ReturnValuesOnConditionCheckFailure == typesv2.ReturnValuesOnConditionCheckFailureAllOld {
+			cc.Item = mapToV2(e.Item) // as the service does when the request asks for the old item
+		}
+		return nil, err
 	}
 	return &ddbv2.PutItemOutput{}, nil
 }
